@@ -635,6 +635,60 @@ func (e *Engine) findCounterexample(fc *FuncContract, opt CheckOptions) map[stri
 	return res
 }
 
+// familyReplay replays a failed derived clause of a generated router on the real generated code:
+// the in-package test of the scratch module serves every short path and evaluates the clause.
+func (e *Engine) familyReplay(familyDir, oblName string) map[string]any {
+	i := strings.Index(oblName, ".")
+	j := strings.Index(oblName, "/post:")
+	if i < 0 || j < 0 {
+		return nil
+	}
+	pkgID := oblName[:i]
+	label := oblName[j+len("/post:"):]
+	if k := strings.LastIndex(label, "#"); k > 0 {
+		label = label[:k]
+	}
+	key := "family:" + pkgID + ":" + label
+	if e.ceCache == nil {
+		e.ceCache = map[string]map[string]any{}
+	}
+	if r, ok := e.ceCache[key]; ok {
+		return r
+	}
+	dir := filepath.Join(familyDir, pkgID)
+	var cs *ContractSet
+	for _, s := range e.Sets {
+		if s.PkgDir == dir {
+			cs = s
+		}
+	}
+	if cs == nil {
+		return nil
+	}
+	overlay := map[string][]byte{}
+	for k, b := range cs.Overlay {
+		overlay[k] = b
+	}
+	out, _ := runOverlayTest(familyDir, pkgID, overlay, "TestVerifFamilyReplay$", []string{"VERIF_CLAUSE=" + label}, 150*time.Second)
+	res := map[string]any{"search": map[string]any{"program": pkgID, "clause": label, "method": "generated server run on every short path over the route set's alphabet (in-package test of the scratch module)"}}
+	res["status"] = "no-input"
+	for _, ln := range strings.Split(out, "\n") {
+		if strings.HasPrefix(ln, "VERIF-REPLAY-FAIL ") {
+			res["status"] = "confirmed"
+			res["found_by"] = "exhaustive short-path replay on the generated server"
+			res["witness"] = strings.TrimPrefix(ln, "VERIF-REPLAY-FAIL ")
+		}
+		if strings.HasPrefix(ln, "VERIF-REPLAY-NONE ") {
+			res["search_result"] = strings.TrimPrefix(ln, "VERIF-REPLAY-NONE ")
+		}
+	}
+	if res["status"] == "no-input" && res["search_result"] == nil {
+		res["search_error"] = truncate(out, 1500)
+	}
+	e.ceCache[key] = res
+	return res
+}
+
 // runStandins executes the bounded stand-ins of a property (labelled bounded, never counted as proved).
 func runStandins(pc *PropConfig, opt CheckOptions, say func(string, ...any), prop, replayDir string) ([]map[string]any, int) {
 	var out []map[string]any
